@@ -76,6 +76,12 @@ import PyodaProofs.GenAgreeC01
 #print axioms Pyoda.GenAgree.C01.gen_Pers_toMonth_eq
 #print axioms Pyoda.GenAgree.C01.gen_Pers_split_eq
 #print axioms Pyoda.GenAgree.C01.gen_Pers_leapArithmetic_eq
+#print axioms Pyoda.GenAgree.C01.gen_Isl_isLeap_eq
+#print axioms Pyoda.GenAgree.C01.gen_Pers_leapSimple_eq
+#print axioms Pyoda.GenAgree.C01.gen_Isl_start_loop1_eq
+#print axioms Pyoda.GenAgree.C01.gen_Isl_start_loop2_eq
+#print axioms Pyoda.GenAgree.C01.gen_Isl_start_eq
+#print axioms Pyoda.GenAgree.C01.gen_dayOfWeek_eq
 #print axioms Pyoda.GenAgree.C01.gen_Calc_minYear_eq
 #print axioms Pyoda.GenAgree.C01.gen_Calc_maxYear_eq
 #print axioms Pyoda.GenAgree.C01.gen_Calc_daysAtStartOfYear1_eq
